@@ -76,8 +76,8 @@ PROPS = {
                   # task/channel bookkeeping of run_check + the whole receive loop of output_result + main-workspace file selection
                   {'unit': 'c36_channel'}],
         'level': 'proof',
-        'level_text': 'Verus proves on the extracted body of output_result\'s receive loop, for every diagnostics vector, filter and flag: the writer is handed exactly the order-preserving sub-list that passes --severity, once, under its own file id; the error flag becomes true exactly when a reported diagnostic is an error or (with --warnings-as-errors) a warning; the returned status is non-zero exactly when the flag is set. DiagnosticSeverityFilter::allows is proved against the threshold table.',
-        'level_note': 'Vec::retain std contract assumed; the async channel/termination logic (count == total_count) and the three writers are under contract in unit c36_writers (JSON / SARIF: one entry per diagnostic under its own file, finish serialises what was accumulated; text: one block per diagnostic, rendered whenever its lines exist) with stdout/File as ghost event logs and serde_json / formatting opaque; counters are usize (no overflow below 2^64 diagnostics)',
+        'level_text': "On the real text, for every diagnostics vector, filter and flag. (c36_exit) per file: the writer is handed exactly the order-preserving sub-list that passes --severity, once, under its own file id; the error flag becomes true exactly when a reported diagnostic is an error or (with --warnings-as-errors) a warning; the status is non-zero exactly when the flag is set. (c36_channel) run_check sends exactly one message per main-workspace file (get_main_workspace_file_ids returns exactly the files of the main workspace, each once), the count handed to output_result equals the number of messages, the receive loop of output_result consumes EVERY message exactly once before writer.finish() and terminates; hence every main-workspace file's filtered diagnostics are written once and the exit status reflects all of them. (c36_writers) JSON / SARIF: one entry per diagnostic under its own file; text: one block per diagnostic.",
+        'level_note': 'Vec::retain std contract assumed; tokio abstracted by the named rules async-seq-*: every spawned task runs its body to completion exactly once before the receiver sees the channel closed (scheduling, task panics, runtime shutdown, back-pressure not modelled: the clauses are about WHICH messages are sent and consumed); diagnose_file a function of (analysis, file id); stdout / File as ghost event logs; serde_json and formatting opaque; index invariant file_module_map[k].file_id == k assumed here (a conjunct of module_wf, unit c10_module); counters are usize',
         'not_covered': ['real tokio scheduling: unit c36_channel proves WHICH messages are sent and consumed under the sequential schedule abstraction (every spawned task runs to completion exactly once before the receiver sees the channel closed; task panics / runtime shutdown / back-pressure not modelled)', 'formatting inside the writers (print! arguments, json! layout, SARIF tool lookup)', 'that WorkspaceId::MAIN is assigned to exactly the files of the workspace roots given on the command line', 'run_check before the file selection (argument handling, load_workspace)'],
     },
     'C38': {
@@ -133,9 +133,9 @@ PROPS = {
                     {'for': r'Vfs::', 'driver': 'replay/c10_vfs', 'bin': 'replay',
                      'history': 'EmmyLuaAnalysis: update_file_by_uri(untitled:Untitled-1) twice, remove_file_by_uri, then look for the text in the Vfs'}],
         'level': 'proof',
-        'level_text': 'Clause-level: for LuaDeclIndex, LuaDependencyIndex, DiagnosticIndex, LuaFlowIndex, LuaSignatureIndex, LuaPropertyIndex (and the four per-file maps of LuaReferenceIndex) Verus proves for every index state and file id that remove(file_id) deletes exactly the entry keyed by that file (map == old.remove(file_id)), that every signature / property owner registered for the file is gone, and that DbIndex::remove establishes all of these together.',
-        'level_note': 'NOT covered: LuaModuleIndex, LuaMemberIndex, LuaTypeIndex, LuaOperatorIndex, LuaMetatableIndex, LuaGlobalIndex (nested get_mut/retain cascades outside the dialect), the nested sweeps of LuaReferenceIndex, Vfs::remove_file, values that mention the removed file inside other files\' entries (e.g. dependency sets), and every query path; HashSet::into_iter modelled as an arbitrary duplicate-free enumeration; key models assumed',
-        'not_covered': ['module/member/type/operator/metatable/global indexes', 'reference index nested sweeps', 'Vfs::remove_file', 'memory release'],
+        'level_text': 'For every index of DbIndex, every index state and every file id, Verus proves on the real remove(file_id): (c10_remove) LuaDeclIndex, LuaDependencyIndex, DiagnosticIndex, LuaFlowIndex, LuaSignatureIndex, LuaPropertyIndex and the per-file maps of LuaReferenceIndex lose exactly the entry keyed by the file and every owner listed under it; (c10_remove2) LuaMemberIndex, LuaOperatorIndex, LuaTypeIndex, LuaGlobalIndex, LuaMetatableIndex and the nested sweeps of LuaReferenceIndex: nothing keyed by, listed under or pointing to the removed file remains, emptied containers are released, everything else is unchanged (under the representation invariants member_wf / op_wf / type_wf; the super-clause sweep holds unconditionally); DbIndex::remove delegates to all of them; (c10_module) LuaModuleIndex::remove under the tree invariant module_wf: file map, node lists and name table swept, the chain of emptied nodes released, module_wf re-established; (c10_writers) the WRITERS (add_member, add_member_to_owner, set_member_owner, add_operator, add_type_decl, add_super_type, bind_type, the property writers, add_module_by_module_path, ...) establish and preserve those invariants: every object a file contributes is listed under that file, so remove finds it; (c22_vfs) Vfs::remove_file.',
+        'level_note': 'assumed: std contracts of Vec::retain / HashMap::retain / get_mut / iter_mut / entry (assume_specification), hashbrown -> std, key models; call-site preconditions of some writers (operator ids are new, an owner that carries a file is annotated from that file) by reading; NOT covered: facts that OTHER, still present files derived from the removed file (type caches, re-owned members, dependency sets) stay until those files are re-analysed - remove_file_by_uri re-analyses nothing (reported, not failed, by the bounded search replay/c10_trace as STALE-DEPENDENT); query paths; OPEN known findings pinned by replay/c10_trace: a shared class property is dropped with the first co-declaring file, Many([x]) vs One(x), members re-owned to a class of the removed file',
+        'not_covered': ['stale facts in dependents of the removed file until they are re-analysed', 'JsonSchemaIndex (remote cache by design)', 'query paths over the indexes'],
     },
     'C31': {
         'units': [{'unit': 'c31_path'},
@@ -157,7 +157,7 @@ PROPS = {
                   {'unit': 'c01_green', 'labels': [r'C01\.', r'^(?!.*\[C0[12]\.).*$']},
                   # the doc-comment re-lexer: LuaDocLexer tiles its range, the LuaDocParser driver emits every re-lexed token once,
                   # parse_comment/parse_docs run to the end of the comment span (the contract c01_parser assumes for LuaDocParser::parse)
-                  {'unit': 'c01_doc', 'labels': [r'C01\.', r'^(?!.*\[C0[12]\.).*$']},
+                  {'unit': 'c02_gdoc', 'labels': [r'C01\.', r'^(?!.*\[C0[12]\.).*$']},
                   # the ~2200 lines of statement / expression grammar (grammar/lua/{mod,stat,expr}.rs), all 53 fns with their real bodies: they keep the
                   # driver invariant (every token emitted exactly once, in order) - this DISCHARGES the contract unit c01_parser assumes for parse_stats
                   {'unit': 'c02_grammar', 'labels': [r'C01\.', r'^(?!.*\[C0[12]\.).*$']},
@@ -166,15 +166,15 @@ PROPS = {
         'replays': [{'for': r'.', 'driver': 'replay/c01', 'bin': 'replay', 'args': {'mode': 'search', 'seed': 1, 'count': 200000}, 'quick': True, 'on_undecided': True,
                      'history': 'parse the text with LuaParser::parse(text, ParserConfig::default()); compare tree text with the input'}],
         'level': 'proof',
-        'level_text': 'The statement factors into four links text -> tokens -> events -> green elements -> rowan tree. L1 (unit c01_reader): Verus proves on the real Reader and the whole real lexer (tokenize, lex with its 50-arm match, lex_string, lex_long_string, lex_number, ...) that the tokens tile the text: first starts at 0, adjacent, last ends at text.len(), all non-empty on char boundaries, for every text (incl. NUL/BOM). L2 (c01_parser): the parser driver (init, bump, skip_trivia, parse_trivia_tokens, parse_comments, parse_chunk loop, the Marker API) keeps the invariant that the EatToken events emitted so far are exactly the tokens before the cursor, once, in order. L3 (c01_green): LuaTreeBuilder::build and LuaGreenNodeBuilder::{token,start_node,finish_node,build_rowan_green,finish} hand exactly those ranges, in order, to rowan for EVERY event list. Unbounded, on text extracted from /repo each run.',
-        'level_note': 'the doc-comment link is proved in unit c01_doc (doc lexer, doc parser driver, parse_comment/parse_docs) modulo a frame contract for the tag/type grammar (tag.rs, types.rs: they reach events and lexer only through the proved driver functions — grep evidence in the unit) and the not yet mechanised hand-over of per-token facts from c01_parser to the LuaDocParser::parse call site; parse_stats and the rest of the Lua grammar only through the privacy frame (they can reach events/tokens only via the proved driver functions); rowan GreenNodeBuilder (tree leaves == emitted tokens); parents_ok/events_ok on the event list (panic-freedom only); start states other than LexerState::Normal; LuaDocLexer; std specs of chars/len_utf8/str slicing/mem::replace/Vec::drain; unit c01_compose includes the interface predicate files of the three units (the same text, via //@@include) and proves theorem_lossless: L1, L2, L3 contracts + the listed hypotheses imply concat of the byte slices of the tree leaves == text bytes; NOT proved: that the values flowing through LuaParser::parse are those the three contracts speak about (read off lua_parser.rs:50-84), doc tokens start on char boundaries (H-DOC), events_ok / parents_ok',
-        'not_covered': ['tag / type grammar of doc comments except through the frame contract', 'the ~3000 lines of Lua grammar except through the frame', 'rowan itself'],
+        'level_text': 'The statement factors into links text -> tokens -> events -> green elements -> rowan tree, every link proved on the real text extracted from /repo on each run, for every input. L1 (unit c01_reader): the real Reader and the whole real lexer: the tokens tile the text (first starts at 0, adjacent, last ends at text.len(), non-empty, on char boundaries; NUL / BOM included). L2 (c01_parser + c02_grammar + c02_gdoc): the parser driver (init, bump, skip_trivia, parse_trivia_tokens, parse_comments, parse_chunk, the Marker API) keeps the invariant "the EatToken events emitted so far are exactly the tokens before the cursor, once, in order"; ALL 53 functions of the Lua grammar (grammar/lua/{mod,stat,expr}.rs) are proved with their real bodies to keep that invariant (this discharges the contract c01_parser states for parse_stats); the doc-comment side: the whole doc lexer, the LuaDocParser driver and ALL 78 functions of the doc grammar (grammar/doc/{mod,tag,types}.rs) keep the driver invariant of the re-lexed comment (the emitted ranges tile exactly the bytes of the comment tokens). L3 (c01_green): LuaTreeBuilder::build and LuaGreenNodeBuilder hand exactly those ranges, in order, to rowan for EVERY event list. c01_compose: machine-checked glue (theorem_lossless).',
+        'level_note': 'assumed: rowan GreenNodeBuilder (tree leaves == emitted tokens); std specs of chars / len_utf8 / str slicing / mem::replace / Vec::drain; that the values flowing through LuaParser::parse are those the link contracts speak about (read off lua_parser.rs:50-84), including the hand-over of per-token facts (char boundaries, inside the text) from c01_parser to the LuaDocParser::parse call site (dtoks_ok; follows from L1, not mechanised); error reporting (t!, push_error, message closures) is rewritten to a no-op by named rules: `errors` is a projected-out field; ParserConfig::support / language level uninterpreted; start states other than LexerState::Normal',
+        'not_covered': ['rowan itself', 'content of the error list', 'tree SHAPE (node kinds, nesting) beyond: every token emitted once, in order'],
     },
     'C02': {
         'units': [{'unit': 'c01_reader', 'labels': [r'C02\.', r'^(?!.*\[C0[12]\.).*$']},
                   {'unit': 'c01_parser', 'labels': [r'C02\.', r'^(?!.*\[C0[12]\.).*$']},
                   {'unit': 'c01_green', 'labels': [r'C02\.', r'^(?!.*\[C0[12]\.).*$']},
-                  {'unit': 'c01_doc', 'labels': [r'C02\.', r'^(?!.*\[C0[12]\.).*$']},
+                  {'unit': 'c02_gdoc', 'labels': [r'C02\.', r'^(?!.*\[C0[12]\.).*$']},
                   # the Lua grammar: no panic (every bump / marker / push_node_end precondition discharged at every call site), every loop and
                   # the whole recursive descent terminate (decreases (tokens remaining, rank)), progress postconditions of every statement parser
                   {'unit': 'c02_grammar', 'labels': [r'C02\.', r'^(?!.*\[C0[12]\.).*$']}],
@@ -183,9 +183,9 @@ PROPS = {
                     {'for': r'$^', 'driver': 'replay/c02', 'bin': 'replay', 'args': {'mode': 'search'}, 'thorough': True,
                      'history': 'deeply nested input (parens, tables, function bodies, unary/right-assoc operators, call/index chains, doc types, if/do blocks) at depths 1e2..1e5, parsed on a 2 MiB thread stack in a child process'}],
         'level': 'proof',
-        'level_text': 'Reduced scope, stated as such: for the lexer (all of it), the parser driver + Marker API + the parse_chunk loop, and both tree builders, Verus proves for all inputs (a) no panic: every index, slice, unwrap, unreachable!(), assert and arithmetic obligation in the extracted functions is discharged, and (b) termination: every loop has a decreases measure (tokenize/lex consume >= 1 char per token; bump strictly advances the token cursor, so parse_chunk runs <= tokens.len() iterations; the builders\' scans and the explicit rowan stack).',
-        'level_note': 'NOT decided by contracts: panics inside the ~3000 grammar lines and the doc lexer/parser, linear-time bound; the recursion-depth clause has no contract within reach (stack usage is not expressible) — the thorough tier runs the bounded search replay/c02, whose crashes at nesting depth >= 1000 are an OPEN known finding (the recursive-descent grammar has no depth limit); assumptions on the event list (events_ok, parents_ok) and on mark_level > 0 at push_node_end for grammar callers; LuaParser::bump requires token_index < tokens.len() (a second bump at end of input indexes out of bounds — API-level, every grammar call site is guarded by a current_token test)',
-        'not_covered': ['stack overflow from deep nesting', 'grammar/doc-parser panics', 'time bound'],
+        'level_text': "For the lexer (all of it), the parser driver + Marker API + parse_chunk, ALL 53 functions of the Lua grammar (grammar/lua/{mod,stat,expr}.rs), the doc lexer, the LuaDocParser driver and ALL 78 functions of the doc grammar (grammar/doc/{mod,tag,types}.rs: tags and doc TYPES), and both tree builders, Verus proves on the real bodies, for all inputs: (a) no panic: every index, slice, unwrap, unreachable!(), assert, arithmetic obligation and every precondition of bump / mark / push_node_end / Marker::{set_kind,complete,undo} / CompleteMarker::precede / set_current_token_kind at every grammar call site is discharged; (b) no hang: every loop has a decreases measure backed by labelled progress postconditions (a statement parser called on a non-block-follow token consumes a token or fails at a token that is not a statement start; recovery loops consume or stop at end of input; ...), and the whole recursive descent terminates: every function carries decreases (tokens / bytes remaining, rank), checked across the three Lua grammar files in one unit; the event list handed to the tree builder satisfies events_ok (parent links point forward to NodeStarts), the precondition of the builders' panic-freedom.",
+        'level_note': 'NOT decided by contracts: stack DEPTH of the recursion (no contract expresses stack usage) - the thorough tier runs the bounded search replay/c02, whose crashes at nesting depth >= 1000 are an OPEN known finding (the recursive-descent grammar has no depth limit); the linear-TIME bound (e.g. the cost of the duplicate check in push_error is outside every contract: error reporting is rewritten to a no-op); assumed: usize depth counters (enter_paren / enter_ternary) do not overflow (each increment follows a bump, tokens.len() < 2^31); ParserConfig::support uninterpreted; latent, unreachable from text: parse_stats would loop on a token stream containing TkContinue / TkConst tokens - the lexer never produces these kinds (proved: C02.lexer.no-soft-keyword-kinds in c01_reader, linked in c01_compose)',
+        'not_covered': ['stack overflow from deep nesting (open known finding)', 'time bound', 'content of the error list'],
     },
     'C23': {
         'units': [{'unit': 'c23_encoding'}, {'unit': 'c22_lineindex', 'role': 'pin'}],
@@ -224,9 +224,9 @@ PROPS = {
         'engines': [{'kind': 'scan', 'name': 'token_at_offset', 'glob': 'crates/emmylua_ls/src/handlers/**/*.rs',
                      'pattern': r'token_at_offset\(|covering_element\(', 'covered_by': r'get_offset\(|to_rowan_range\(|position_offset|get_position_offset'}],
         'level': 'proof',
-        'level_text': 'Narrow: the named crash mechanism only. For every document and every client (line, character), LuaDocument::get_offset / to_rowan_range / get_col_offset_at_line return None or offsets <= text.len() (proved on the real functions, unit c22_lineindex); together with C01 (the tree covers [0, text.len()), rowan assumed) this is the precondition of rowan\'s token_at_offset / covering_element, so handlers that feed a client position through these conversions cannot hit the out-of-range panic. The evidence lists every token_at_offset / covering_element call site in emmylua_ls/src/handlers with the origin of its argument (an unchecked inventory).',
-        'level_note': 'NOT decided by contracts: the rest of each handler (everything after the offset is computed); call sites fed by positions read back from the tree or an index; the inventory is a syntactic scan, not a proof. Both tiers additionally run the BOUNDED search replay/c25 on the real handlers through the guarded hook (24 documents, every position on / beyond each line); it is listed under coverage.bounded, can only add a violation with a concrete replayed input, and is never counted as proved',
-        'not_covered': ['handler bodies', 'call sites not fed by a client position'],
+        'level_text': "The named crash mechanism, for all client positions and ranges. (c22_lineindex) for every document and every client (line, character), LuaDocument::get_offset / to_rowan_range / get_col_offset_at_line return None or offsets <= text.len(), and a reversed client range converts to None (TextRange::new's assertion is a discharged obligation); (c25_sites) rowan's panic condition of token_at_offset is a PRECONDITION of the shim, so it is a proof obligation at 16 of the 20 token_at_offset call sites of emmylua_ls/src/handlers (hover, definition, implementation, references, rename x2, completion, completion resolve, signature help, highlight, selection range, inline values, call hierarchy x2, both code-action builders), discharged from the conversion contracts or from the guard in the real text; with C01 (the tree covers [0, text.len()), rowan assumed).",
+        'level_note': "NOT decided by contracts: the rest of each handler (everything after the token is found); 4 call sites fed by positions read back from an index or the tree (goto_function, build_inlay_hint [guarded since 8b03b52, not yet under contract], postfix_provider, reference_searcher) are listed as not covered with the invariant each would need; link assumption of every site: the root handed out by the semantic model is the tree of the document's text. Both tiers additionally run the BOUNDED search replay/c25 on the real handlers through the guarded hook (24 documents, every position on / beyond each line); thorough: replay_handlers (real async handlers under tokio: reversed ranges for rangeFormatting / colorPresentation, stale cross-file signature for inlayHint); bounded results are listed under coverage.bounded and never counted as proved",
+        'not_covered': ['handler bodies after the token lookup', '4 call sites fed by stored positions'],
     },
     'C26': {
         'units': [{'unit': 'c26_semantic_tokens'}, {'unit': 'c26_ranges'},
@@ -234,8 +234,8 @@ PROPS = {
                   # selection ranges (add_detail_ranges): half-open containment, sorted by length, strictly growing chain under laminar markup items
                   {'unit': 'c26_locations'}],
         'level': 'proof',
-        'level_text': 'Semantic-token sentence only. On the real SemanticBuilder and legend code, for all inputs: (legend) every SemanticTokenTypeKind maps to an index inside all_types() whose entry is its own token type (spec copies of to_u32 / to_semantic_token_type / all_types extracted from the repository text and tied to the exec code); the ten modifier constants are exactly the bits 0..9 of all_modifiers(), bit-or preserves "only legend bits", and every token pushed through push* and emitted by build() has type index < legend length and modifier bits < 2^10; (encoder) build() emits one token per pushed piece, the LSP decoding of its delta encoding is the (line, col)-sorted sequence of the pieces (hence ordered), no u32 underflow; push_data splits a multi-line token into exactly one piece per line in order, first at start_col, others at column 0, last of length end_col.',
-        'level_note': 'assumed: std contracts of sort_unstable_by and into_iter().map().collect(); LuaDocument::get_line_col contract + monotonicity are proved in unit c22_lineindex and restated here as shim/axiom; lsp_types constants pairwise distinct; handlers call push* with ranges of the document tree and modifiers built from the ten constants (privacy + reading). NOT covered: non-overlap of tokens, the sentinel length 9999 of split pieces vs. the line length, document symbols, folding ranges, selection ranges, completion edits, workspace edits',
-        'not_covered': ['token non-overlap', 'piece length vs line length', 'document symbols / folding / selection ranges / completion / workspace edits'],
+        'level_text': 'Clause by clause, on the real code, for all inputs. Semantic tokens (c26_semantic_tokens): legend indices and modifier bits inside the advertised legend, delta encoding decodes to the (line, col)-sorted pieces, multi-line split. Document symbols (c26_ranges): children nest within their parents, selection ranges inside ranges (builder + the binding slices of local / assign statements). Folding ranges (c26_ranges): start <= end for every builder, region pairing. Selection ranges: the ancestor chain is the ancestry of the token, every parent contains its child and differs from it (c26_ranges); the description detail ranges contain the offset (half-open), are sorted by length and form a strictly growing chain when the markup items are laminar (c26_locations). Locations (c26_locations): LuaDocument::to_lsp_location and the 10 hand-built Location sites pair a uri with a range converted by the SAME document.',
+        'level_note': 'assumed: std contracts of sort_unstable_by / sort_by_key / collect; LuaDocument::get_line_col / to_lsp_range contracts are proved in unit c22_lineindex and restated as shims; lsp_types constants pairwise distinct; index consistency (an operator / declaration range belongs to the file recorded with it); tree-document agreement; markup items are laminar (any two nest or are disjoint: a property of the 8.8 kLoC markup parser of C37). NOT covered: non-overlap of semantic tokens, the sentinel length of split pieces, completion edits, workspace-edit overlap, the 27 other callers of to_lsp_location (callee under contract, arguments not), get_document_lsp_range ends at (line_count, 0), one line past the last line',
+        'not_covered': ['semantic token non-overlap', 'completion item edits', 'workspace edit overlap', 'ranges passed to to_lsp_location by its 27 callers'],
     },
 }
